@@ -118,6 +118,12 @@ class Negotiated:
         )
 
         self.local_as = self.sent_open.asn
+        if self.sent_open.asn == AS_TRANS:
+            # the OPEN field only holds AS_TRANS for a 4-byte local AS: our true AS is in the capability we
+            # sent, whether or not the peer understands it (it decides iBGP/eBGP and fills AS4_PATH)
+            sent_asn4 = sent_capa.get(Capability.CODE.FOUR_BYTES_ASN, None)
+            if isinstance(sent_asn4, ASN):
+                self.local_as = sent_asn4
         self.peer_as = self.received_open.asn
         if self.received_open.asn == AS_TRANS and self.asn4:
             asn4_capa = recv_capa.get(Capability.CODE.FOUR_BYTES_ASN, None)
@@ -239,8 +245,8 @@ class Negotiated:
         if self.received_open.router_id == RouterID('0.0.0.0'):
             return (2, 3, '0.0.0.0 is an invalid router_id')
 
-        if self.received_open.asn == neighbor.session.local_as:
-            # router-id must be unique within an ASN
+        if self.peer_as == neighbor.session.local_as:
+            # router-id must be unique within an ASN (the true peer AS: the OPEN field is AS_TRANS for a 4-byte AS)
             if self.received_open.router_id == neighbor.session.router_id:
                 return (
                     2,
